@@ -101,10 +101,14 @@ type Translator struct {
 	safetyTags []string
 	short  string
 	rangeOfNext map[*ssa.BasicBlock]*ssa.Range
+	interiorLocals map[*ssa.Alloc]bool // locals that are assigned the address of a field or element somewhere
+	rangeDom0   map[*ssa.Range]string // domain of the ranged map when the range statement started
+	rangeBound  map[*ssa.Range]int    // 0 unknown, 1 = no call in the loop can add keys to the ranged map's type, 2 = may
 	parent  *Translator
 	callOrd map[*ssa.Call]int
 	bodyLocals bool // ghost assertions inside a loop body may name the body's own locals
 	curCall int
+	curCallOrd int // ordinal of the call being translated (only when the contract has hints)
 	rets    []retEdge
 	notesUp []string
 }
@@ -121,6 +125,14 @@ func (t *Translator) assume(st *State, f string) {
 		st.pcHasOb = false
 	}
 	t.vc.assume(st.pc, f)
+}
+
+// assumeL is assume with a label that `hint` directives can name.
+func (t *Translator) assumeL(st *State, f, label string) {
+	t.assume(st, f)
+	if f != "true" && label != "" {
+		t.vc.consLabel[st.pc+"\x00"+f] = label
+	}
 }
 
 func (t *Translator) oblige(st *State, kind, label string, tags []string, goal, pos, src string) {
@@ -147,7 +159,21 @@ func (t *Translator) oblige(st *State, kind, label string, tags []string, goal, 
 	t.vc.obs = append(t.vc.obs, ob)
 	st.pcHasOb = true
 	// assert-then-assume
-	t.assume(st, goal)
+	al := label
+	if strings.HasPrefix(kind, "loop") {
+		al = "inv." + label
+	}
+	t.assumeL(st, goal, al)
+	// proof hints: restrict the quantified hypotheses of this obligation to the named ones
+	if t.spec != nil && t.parent == nil {
+		suffix := kind
+		if label != "" {
+			suffix += "." + label
+		}
+		if hs, ok := t.spec.Hints[suffix]; ok {
+			ob.Hints = hs
+		}
+	}
 }
 
 func (t *Translator) safety(st *State, what string, goal string, pos token.Pos, expr string) {
@@ -375,11 +401,15 @@ func (t *Translator) storePath(st *State, p *Path, nv string, pos token.Pos) {
 		}
 		st.locals[p.local] = val
 	case p.tmp != "":
-		t.vc.note("store through a slice/struct value without known origin in %s at %s (effect dropped)", t.short, t.w.pos(pos))
+		t.vc.unsupportedf("store through a slice/struct value without known origin in %s at %s", t.short, t.w.pos(pos))
 	case p.global != nil:
 		a := t.globalArr(p.global)
 		t.setArr(st, a, t.setSteps(t.arrTerm(a, st.heap), p.steps, nv))
 	default:
+		if _, boxed := t.vc.copyIns[p.ref]; boxed && pos != token.NoPos {
+			// the copy-in model of an escaped interior pointer is read-only: a write would not reach the enclosing object
+			t.vc.unsupportedf("write through an interior pointer held in a variable in %s at %s", t.short, t.w.pos(pos))
+		}
 		t.safety(st, "nilderef", "(not (= "+p.ref+" 0))", pos, "nil")
 		if _, isStruct := p.refT.Underlying().(*types.Struct); isStruct {
 			if len(p.steps) > 0 && p.steps[0].kind == stField {
@@ -510,6 +540,10 @@ func (t *Translator) refOf(st *State, v ssa.Value) string {
 	r := t.allocRef(st)
 	np := &Path{ref: r, refT: ty}
 	t.storePath(st, np, cur, token.NoPos)
+	if t.vc.copyIns == nil {
+		t.vc.copyIns = map[string]types.Type{}
+	}
+	t.vc.copyIns[r] = ty
 	return r
 }
 
@@ -780,6 +814,18 @@ func (t *Translator) findLoops() {
 					t.rangeOfNext[b] = r
 				}
 			}
+			// variables that may hold an interior pointer (address of a field or element)
+			if s, ok := in.(*ssa.Store); ok {
+				switch s.Val.(type) {
+				case *ssa.FieldAddr, *ssa.IndexAddr:
+					if a, isLocal := s.Addr.(*ssa.Alloc); isLocal {
+						if t.interiorLocals == nil {
+							t.interiorLocals = map[*ssa.Alloc]bool{}
+						}
+						t.interiorLocals[a] = true
+					}
+				}
+			}
 		}
 	}
 }
@@ -810,7 +856,7 @@ func (t *Translator) join(b *ssa.BasicBlock, ins []edgeIn) *State {
 	for k := range localKeys {
 		lk = append(lk, k)
 	}
-	sort.Slice(lk, func(i, j int) bool { return lk[i].Name() < lk[j].Name() })
+	sort.Slice(lk, func(i, j int) bool { return allocKey(lk[i]) < allocKey(lk[j]) })
 	for _, k := range lk {
 		same := true
 		first, ok0 := ins[0].st.locals[k]
@@ -829,6 +875,9 @@ func (t *Translator) join(b *ssa.BasicBlock, ins []edgeIn) *State {
 			v, ok := e.st.locals[k]
 			if !ok {
 				continue // not yet allocated on that path: value irrelevant
+			}
+			if ty, boxed := vc.copyIns[v]; boxed {
+				vc.copyIns[n] = ty // the variable may hold a boxed interior pointer
 			}
 			vc.assume(e.st.pc, "(= "+n+" "+v+")")
 		}
@@ -880,7 +929,12 @@ func (t *Translator) join(b *ssa.BasicBlock, ins []edgeIn) *State {
 		out.heap.next = n
 	}
 	// iterators
+	var iterKeys []*ssa.Range
 	for r := range out.iters {
+		iterKeys = append(iterKeys, r)
+	}
+	sort.Slice(iterKeys, func(i, j int) bool { return valueKey(iterKeys[i]) < valueKey(iterKeys[j]) })
+	for _, r := range iterKeys {
 		same := true
 		for _, e := range ins {
 			if e.st.iters[r] != out.iters[r] {
@@ -904,6 +958,21 @@ func (t *Translator) join(b *ssa.BasicBlock, ins []edgeIn) *State {
 // loopTargets computes what a loop may modify.
 func (t *Translator) loopTargets(li *loopInfo) (locals []*ssa.Alloc, arrs []*ArrInfo, all bool, iters []*ssa.Range, allocs bool) {
 	ws := newWriteSet()
+	cws := newWriteSet() // what calls inside the loop may write
+	defer func() {
+		if r := t.rangeOfNext[li.header]; r != nil {
+			if mt, ok := r.X.Type().Underlying().(*types.Map); ok {
+				if t.rangeBound == nil {
+					t.rangeBound = map[*ssa.Range]int{}
+				}
+				md, _ := t.w.mapArrs(mt)
+				t.rangeBound[r] = 1
+				if cws.all || cws.arrs[md.Name] {
+					t.rangeBound[r] = 2
+				}
+			}
+		}
+	}()
 	lset := map[*ssa.Alloc]bool{}
 	for b := range li.blocks {
 		for _, in := range b.Instrs {
@@ -926,6 +995,7 @@ func (t *Translator) loopTargets(li *loopInfo) (locals []*ssa.Alloc, arrs []*Arr
 				allocs = true
 			case ssa.CallInstruction:
 				allocs = true
+				t.w.instrWrites(t.fn, in, cws)
 			}
 			t.w.instrWrites(t.fn, in, ws)
 		}
@@ -933,7 +1003,7 @@ func (t *Translator) loopTargets(li *loopInfo) (locals []*ssa.Alloc, arrs []*Arr
 	for a := range lset {
 		locals = append(locals, a)
 	}
-	sort.Slice(locals, func(i, j int) bool { return locals[i].Name() < locals[j].Name() })
+	sort.Slice(locals, func(i, j int) bool { return allocKey(locals[i]) < allocKey(locals[j]) })
 	for _, n := range ws.sorted() {
 		arrs = append(arrs, t.w.heap.arrs[n])
 	}
@@ -1019,6 +1089,9 @@ func (t *Translator) invEnv(st *State, li *loopInfo) *Env {
 	if li != nil {
 		if r := t.rangeOfNext[li.header]; r != nil {
 			env.seen = st.iters[r]
+			if mt, ok := r.X.Type().Underlying().(*types.Map); ok {
+				env.seenKey = &SType{Go: mt.Key()}
+			}
 		}
 		if li.entry != nil {
 			env.pre = li.entry.heap
@@ -1056,6 +1129,11 @@ func (t *Translator) enterLoop(li *loopInfo, ins []edgeIn) *State {
 	h := st.clone()
 	npc := t.vc.newPC(label, st.pc)
 	t.vc.assume(npc, st.pc)
+	if li.spec != nil && li.spec.Cut {
+		// what was learnt between the entry and this loop is forgotten: the invariants must carry what the loop needs
+		t.vc.cutAt[npc] = st.pc
+		t.vc.softCut[npc] = true
+	}
 	h.pc = npc
 	h.pcHasOb = false
 	for _, a := range locals {
@@ -1115,7 +1193,7 @@ func (t *Translator) enterLoop(li *loopInfo, ins []edgeIn) *State {
 		env := t.invEnv(h, li)
 		for _, c := range li.spec.Invs {
 			f, _ := env.Eval(c.E)
-			t.assume(h, f)
+			t.assumeL(h, f, "inv."+c.Label)
 		}
 	} else if li.n > 0 {
 		t.vc.note("loop %d of %s has no invariant (state havocked)", li.n, t.short)
@@ -1324,4 +1402,15 @@ func (t *Translator) implicitFrameAssume(st *State) {
 		}
 		t.assume(st, frameFormula(cur, old, t.entry.heap.next, preds[k], t.vc.fresh()))
 	}
+}
+
+// allocKey / valueKey: total, run-independent orders on SSA values (names repeat across inlined functions)
+func allocKey(a *ssa.Alloc) string { return valueKey(a) }
+
+func valueKey(v ssa.Value) string {
+	fn := ""
+	if in, ok := v.(ssa.Instruction); ok && in.Parent() != nil {
+		fn = in.Parent().String()
+	}
+	return fmt.Sprintf("%s/%s/%08d", fn, v.Name(), int(v.Pos()))
 }
